@@ -81,11 +81,17 @@ struct CallRec {
     inv: u64,
     ret: u64,
     executed: bool,
+    /// the body ran and returned Err (scripted)
+    ran_err: bool,
     ok_value: bool,
 }
 
 struct Scenario {
     index: u64,
+    /// functions left "cold": not called before the concurrent phase, so that their first-use
+    /// registration (stats / invalidation registries) happens concurrently with the other threads;
+    /// a cold function is called by one thread only (std::sync::Once is not a scheduled lock)
+    cold: Vec<bool>,
     /// operations run sequentially on the main thread after the warm-up, before the workers start
     prelude: Vec<Op>,
     fns: Vec<FnCtx>,
@@ -100,6 +106,9 @@ fn pick_functions(rng: &mut Rng, focus: &str) -> Vec<&'static FnDesc> {
         .filter(|d| match focus {
             "C14" => true,
             "C03" => !d.scope_thread && d.limit.is_none() && d.ttl.is_none() && d.max_memory.is_none(),
+            "C09" => !d.scope_thread && d.is_result && d.limit.is_none() && d.ttl.is_none() && d.max_memory.is_none(),
+            "C07" => !d.scope_thread && d.limit.is_some() && d.ttl.is_none() && d.max_memory.is_none() && matches!(d.policy, "fifo" | "lru"),
+            "C08" => !d.scope_thread && d.limit.is_some() && d.ttl.is_none() && d.max_memory.is_none() && matches!(d.policy, "lfu" | "arc" | "tlru"),
             "C17" => !d.scope_thread && (d.limit.is_some() || d.ttl.is_some() || d.max_memory.is_some()),
             _ => !d.scope_thread,
         })
@@ -154,7 +163,7 @@ fn gen_scenario(seed: u64, index: u64, focus: &str, jitter: bool) -> Scenario {
             let r = rng.usize(100);
             let f = rng.usize(fns.len());
             let (w_invw, w_invall, w_group, w_stats, w_adv) = match focus {
-                "C03" | "C14" => (0, 0, 0, 2, 0),
+                "C03" | "C14" | "C09" | "C07" | "C08" => (0, 0, 0, 2, 0),
                 "C15" => (6, 3, 5, 6, if any_ttl { 5 } else { 0 }),
                 _ => (14, 6, 10, 5, if any_ttl { 5 } else { 0 }),
             };
@@ -248,7 +257,30 @@ fn gen_scenario(seed: u64, index: u64, focus: &str, jitter: bool) -> Scenario {
             }
         }
     }
-    Scenario { index, prelude, fns, progs, has_invalidation }
+    let mut cold = vec![false; fns.len()];
+    if prelude.is_empty() && matches!(focus, "C17" | "C18") && index % 3 == 2 {
+        let ci = rng.usize(fns.len());
+        if !fns[ci].d.scope_thread {
+            cold[ci] = true;
+            let owner = rng.usize(progs.len());
+            for (ti, p) in progs.iter_mut().enumerate() {
+                for op in p.iter_mut() {
+                    if let Op::Call { f, .. } = op {
+                        if *f == ci && ti != owner {
+                            *op = Op::StatsList;
+                        }
+                    }
+                }
+            }
+            // make sure the owner calls it, early
+            let s = fns[ci].slots[0];
+            if !progs[owner].is_empty() {
+                let at = rng.usize(progs[owner].len().min(3));
+                progs[owner][at] = Op::Call { f: ci, slot: s, err: false };
+            }
+        }
+    }
+    Scenario { index, cold, prelude, fns, progs, has_invalidation }
 }
 
 fn norm_site(s: &str) -> String {
@@ -294,7 +326,7 @@ fn exec_prog(t: usize, prog: &[Op], fns: &[(&'static FnDesc, BTreeMap<u32, Strin
                         // an Err is never cached: a call that did not run the body must have been
                         // served the function's (Ok) value; one that ran an Err script returns it
                         let okv = if *err && executed { co.value == serial && !co.ok } else { co.value == co.twin && co.ok };
-                        sh.recs.lock().unwrap().push(CallRec { thread: t, f: *f, slot: *slot, inv, ret, executed, ok_value: okv });
+                        sh.recs.lock().unwrap().push(CallRec { thread: t, f: *f, slot: *slot, inv, ret, executed, ran_err: *err && executed && d.is_result, ok_value: okv });
                         if d.scope_thread {
                             let cfg = cfg_of(d);
                             let wd = WrapDesc { is_async: false, is_result: d.is_result, has_cache_if: false, has_invalidate_on: false };
@@ -349,6 +381,9 @@ fn exec_prog(t: usize, prog: &[Op], fns: &[(&'static FnDesc, BTreeMap<u32, Strin
 fn body_hook(_fid: u32, _digest: u64) {
     lockmon::yield_here();
 }
+fn clone_hook() {
+    lockmon::yield_here();
+}
 
 struct Outcome {
     /// "ok", "deadlock", "stuck"
@@ -358,6 +393,7 @@ struct Outcome {
 fn scenario_witness(sc: &Scenario, seed: u64, mode: &str, switch_pm: u64, detail: Value) -> Value {
     json!({"monitor": "concmon", "mode": mode, "seed": seed, "scenario": sc.index, "switch_pm": switch_pm,
         "functions": sc.fns.iter().map(|f| json!({"fid": f.d.fid, "attrs": f.d.attr_text, "slots": f.slots})).collect::<Vec<_>>(),
+        "cold_functions": sc.cold,
         "prelude": sc.prelude.iter().map(op_json).collect::<Vec<_>>(),
         "programs": sc.progs.iter().map(|p| p.iter().map(op_json).collect::<Vec<_>>()).collect::<Vec<_>>(),
         "detail": detail})
@@ -371,8 +407,13 @@ fn run_scenario(rep: &mut Report, sc: &mut Scenario, seed: u64, mode: &str, focu
     let coarse = (sc.index / 5) % 3 != 0;
     // ---- warm-up on the main thread: registers everything (Once/Lazy are not scheduled),
     //      learns key strings and footprints, leaves the caches empty with zeroed statistics
-    for fc in sc.fns.iter_mut() {
+    let cold = sc.cold.clone();
+    for (fi, fc) in sc.fns.iter_mut().enumerate() {
         let d = fc.d;
+        if cold[fi] {
+            rep.count("C17", "scenarios_with_a_first_use_registration_in_the_concurrent_phase", 1);
+            continue;
+        }
         if d.scope_thread {
             // one call on the main thread: whatever first-use initialisation the expansion
             // performs (none is expected for thread scope) happens outside the scheduled phase
@@ -509,6 +550,11 @@ fn run_scenario(rep: &mut Report, sc: &mut Scenario, seed: u64, mode: &str, focu
             rep.count("C14", "thread_scope_functions_checked_per_thread", 1);
             continue;
         }
+        if sc.cold[fi] {
+            // no key strings were learned for it: only values (above) and deadlock freedom apply
+            cachelito_core::invalidate_with(d.reg_name, |_| true);
+            continue;
+        }
         let calls: Vec<&CallRec> = recs.iter().filter(|r| r.f == fi).collect();
         // C15 conservation
         if let Some(st) = cachelito_core::stats_registry::get(d.reg_name) {
@@ -520,12 +566,16 @@ fn run_scenario(rep: &mut Report, sc: &mut Scenario, seed: u64, mode: &str, focu
             }
         }
         // C03 / C14 shared visibility: no execution after a storing call returned (unbounded, never invalidated)
-        if d.limit.is_none() && d.ttl.is_none() && d.max_memory.is_none() && !sc.has_invalidation[fi] && !d.is_result {
+        if d.limit.is_none() && d.ttl.is_none() && d.max_memory.is_none() && !sc.has_invalidation[fi] {
             for c in calls.iter().filter(|r| r.executed) {
                 rep.count("C03", "executions_checked_against_history", 1);
-                if let Some(prev) = calls.iter().find(|p| p.executed && p.slot == c.slot && p.ret < c.inv) {
+                if d.is_result {
+                    rep.count("C09", "executions_checked_against_history", 1);
+                }
+                // an Err outcome stores nothing; any execution that returned Ok (or a non-Result value) did
+                if let Some(prev) = calls.iter().find(|p| p.executed && !p.ran_err && p.slot == c.slot && p.ret < c.inv) {
                     let p = if prev.thread != c.thread { "C14" } else { "C03" };
-                    let p = if focus == "C03" { "C03" } else { p };
+                    let p = if focus == "C03" { "C03" } else if d.is_result && (focus == "C09" || calls.iter().any(|x| x.ran_err && x.slot == c.slot)) { "C09" } else { p };
                     fail(rep, p, "executed-after-a-storing-call-returned", f, format!("{} slot {}: thread {} executed the body (invoked at {}) although thread {}'s executing call had returned at {}", d.fn_name, c.slot, c.thread, c.inv, prev.thread, prev.ret), json!({"fid": d.fid}));
                     return Outcome { status: "ok" };
                 }
@@ -557,30 +607,95 @@ fn run_scenario(rep: &mut Report, sc: &mut Scenario, seed: u64, mode: &str, focu
                 return Outcome { status: "ok" };
             }
         }
-        // probe 1 (FIFO/LRU with a limit): enough fresh stores must push out every old entry;
-        // afterwards the limit must still hold
-        if let (Some(n), true) = (d.limit, matches!(d.policy, "fifo" | "lru")) {
+        // probe 1 (limit): fresh stores one at a time.  (a) FIFO/LRU: enough of them must push out
+        // every old entry; (b) the order in which old entries leave must not contradict the
+        // completed calls of the concurrent phase: under LRU an entry whose last use finished
+        // before another entry's last use began must leave first (FIFO: same with stores); under
+        // LFU/ARC/TLRU (no ttl) an entry that certainly has hits must not leave while an entry (or,
+        // in the sync caches, the zero-hit newcomer) that certainly has none stays; (c) the limit
+        // must hold throughout.
+        if let Some(n) = d.limit {
             let old: BTreeSet<String> = l.iter().cloned().collect();
             let fresh: Vec<u32> = (0..d.nslots).filter(|s| !f.slots.contains(s)).take(n + old.len() + 1).collect();
+            let ordered_ok = d.ttl.is_none() && d.max_memory.is_none() && !sc.has_invalidation[fi] && sc.prelude.is_empty();
+            // per old key: interval of its last use / last store, and whether it certainly has (no) hits
+            let mut last_use: HashMap<&String, (u64, u64)> = HashMap::new();
+            let mut last_store: HashMap<&String, (u64, u64)> = HashMap::new();
+            let mut sure_hits: HashMap<&String, bool> = HashMap::new();
+            let mut sure_nohits: HashMap<&String, bool> = HashMap::new();
+            for k in &old {
+                if let Some(s) = rev.get(k) {
+                    let cs: Vec<&&CallRec> = calls.iter().filter(|r| r.slot == *s).collect();
+                    if let Some(lu) = cs.iter().max_by_key(|r| r.inv) {
+                        // the "last use" is unambiguous only if no other call on the key overlaps it
+                        if cs.iter().all(|r| r.inv == lu.inv || r.ret < lu.inv) {
+                            last_use.insert(k, (lu.inv, lu.ret));
+                        }
+                    }
+                    let stores: Vec<&&&CallRec> = cs.iter().filter(|r| r.executed && !r.ran_err).collect();
+                    if let Some(ls) = stores.iter().max_by_key(|r| r.inv) {
+                        if stores.iter().all(|r| r.inv == ls.inv || r.ret < ls.inv) {
+                            last_store.insert(k, (ls.inv, ls.ret));
+                            let served_after = cs.iter().filter(|r| !r.executed && r.inv > ls.ret).count();
+                            let served_maybe = cs.iter().filter(|r| !r.executed && r.ret > ls.inv).count();
+                            sure_hits.insert(k, served_after > 0);
+                            sure_nohits.insert(k, served_maybe == 0);
+                        }
+                    }
+                }
+            }
             if fresh.len() == n + old.len() + 1 {
+                let mut cur: BTreeSet<String> = old.clone();
                 for s in &fresh {
                     let co = (d.call)(*s);
                     if co.value != co.twin {
                         fail(rep, "C18", "wrong-value-in-probe", f, "probe call returned a wrong value".into(), json!({"fid": d.fid}));
                         return Outcome { status: "ok" };
                     }
+                    let now_l: BTreeSet<String> = listing(d.reg_name).unwrap_or_default().into_iter().collect();
+                    if now_l.len() > n {
+                        fail(rep, "C18", "limit-exceeded-in-probe", f, format!("{} holds {} entries during the eviction probe, limit {}", d.reg_name, now_l.len(), n), json!({"fid": d.fid, "listing": now_l}));
+                        return Outcome { status: "ok" };
+                    }
+                    let victims: Vec<&String> = cur.iter().filter(|k| old.contains(*k) && !now_l.contains(*k)).collect();
+                    if ordered_ok {
+                        for v in &victims {
+                            let stay: Vec<&String> = now_l.iter().filter(|k| old.contains(*k)).collect();
+                            match d.policy {
+                                "lru" | "fifo" => {
+                                    let tbl = if d.policy == "lru" { &last_use } else { &last_store };
+                                    rep.count("C07", "eviction_order_checks_after_concurrency", 1);
+                                    if let Some((vi, _)) = tbl.get(*v) {
+                                        if let Some(u) = stay.iter().find(|u| tbl.get(**u).map_or(false, |(_, ur)| ur < vi)) {
+                                            fail(rep, "C07", if d.policy == "lru" { "lru-victim-contradicts-completed-uses" } else { "fifo-victim-contradicts-completed-stores" }, f, format!("{}: {:?} was evicted while {:?} stayed, although the last {} of the latter had returned before that of the former was invoked", d.reg_name, v, u, if d.policy == "lru" { "use" } else { "store" }), json!({"fid": d.fid}));
+                                            return Outcome { status: "ok" };
+                                        }
+                                    }
+                                }
+                                "lfu" | "arc" | "tlru" => {
+                                    rep.count("C08", "eviction_popularity_checks_after_concurrency", 1);
+                                    if sure_hits.get(*v).copied().unwrap_or(false) {
+                                        // sync caches: the newcomer itself has no hits and competes
+                                        let zero_candidate = !d.is_async || (d.policy == "lfu" && stay.iter().any(|u| sure_nohits.get(*u).copied().unwrap_or(false)));
+                                        if zero_candidate {
+                                            fail(rep, "C08", "popular-entry-evicted-before-unused-one", f, format!("{}: {:?} was served from the cache after its last store and was evicted although an entry without any hit was available under {}", d.reg_name, v, d.policy), json!({"fid": d.fid}));
+                                            return Outcome { status: "ok" };
+                                        }
+                                    }
+                                }
+                                _ => {}
+                            }
+                        }
+                    }
+                    cur = now_l;
                 }
-                let after = listing(d.reg_name).unwrap_or_default();
                 rep.count("C18", "eviction_probes", 1);
-                let survivors: Vec<&String> = after.iter().filter(|k| old.contains(*k)).collect();
-                // only meaningful if the fresh values fit the memory limit alongside each other
-                if after.len() > n {
-                    fail(rep, "C18", "limit-exceeded-in-probe", f, format!("{} holds {} entries after the eviction probe, limit {}", d.reg_name, after.len(), n), json!({"fid": d.fid, "listing": after}));
-                    return Outcome { status: "ok" };
-                }
-                if !survivors.is_empty() && d.ttl.is_none() {
-                    fail(rep, "C18", "entry-cannot-be-evicted", f, format!("{}: {:?} survived {} fresh stores under {} with limit {}", d.reg_name, survivors, fresh.len(), d.policy, n), json!({"fid": d.fid}));
-                    return Outcome { status: "ok" };
+                if matches!(d.policy, "fifo" | "lru") && d.ttl.is_none() {
+                    let survivors: Vec<&String> = cur.iter().filter(|k| old.contains(*k)).collect();
+                    if !survivors.is_empty() {
+                        fail(rep, "C18", "entry-cannot-be-evicted", f, format!("{}: {:?} survived {} fresh stores under {} with limit {}", d.reg_name, survivors, fresh.len(), d.policy, n), json!({"fid": d.fid}));
+                        return Outcome { status: "ok" };
+                    }
                 }
             }
         }
@@ -682,6 +797,7 @@ fn main() {
         let f = doc["property"].as_str().unwrap_or("C17").to_string();
         lockmon::install();
         vhooks::set_body_hook(body_hook);
+        vhooks::set_clone_hook(clone_hook);
         let f2 = if doc.get("base_property").is_some() { doc["base_property"].as_str().unwrap().to_string() } else { f };
         let mut sc = gen_scenario(s, idx, &f2, m == "jitter");
         let o = run_scenario(&mut rep, &mut sc, s, &m, &f2);
@@ -757,6 +873,7 @@ fn main() {
     // child
     lockmon::install();
     vhooks::set_body_hook(body_hook);
+    vhooks::set_clone_hook(clone_hook);
     let mut k = from;
     let mut code = 0;
     // A function is used by at most one scenario per process: its caches are pristine when the
